@@ -280,6 +280,17 @@ func (c *ratelimitTCPConfig) validate() (err error) {
 		return errors.ErrNoValue
 	}
 
+	// The count is used as the size of the buffer of a channel, so it must at
+	// least be usable as one.
+	if c.MaxPipelineCount > math.MaxInt32 {
+		return fmt.Errorf(
+			"max_pipeline_count: %w: must be less than or equal to %d, got %d",
+			errors.ErrOutOfRange,
+			math.MaxInt32,
+			c.MaxPipelineCount,
+		)
+	}
+
 	return validatePositive("max_pipeline_count", c.MaxPipelineCount)
 }
 
